@@ -53,6 +53,13 @@ def rules(t):
     up = [c for c in t.calls(r"RenetClient::disconnect_due_to_transport$", cu)]
     for c in up: r.site(c)
     if not up: r.bad("up-missing", None, "netcode-level disconnect is not pushed to the RenetClient")
+    # push-up on every path: once the netcode client reports a disconnect reason, the RenetClient is marked disconnected before update returns
+    for c in t.calls(r"NetcodeClient::disconnect_reason$", cu):
+        e = t.result_edges(cu, c)
+        if not e: continue
+        start = (e[0][0], len(cu.blocks[e[0][0]]["stmts"]))
+        ok, w = must_pass(cu, start, {pos(x) for x in up}, avoid_edges={e[1]} if e[0][1] != e[1][1] else set())
+        if not ok: r.bad("up-conditional", c, "the netcode layer reports a disconnect but on some path the RenetClient is not marked disconnected (disconnect_due_to_transport is skipped): the message layer stays connecting/connected while the session is over")
     dn = [c for c in t.calls(r"NetcodeClient::disconnect$", cu)]
     for c in dn: r.site(c)
     if not dn: r.bad("client-down-missing", None, "RenetClient disconnect is not pushed to the netcode client")
@@ -95,4 +102,6 @@ def rules(t):
         if not re.search(r"NetcodeServer::clients_id\(&\*?P1\(self\)\.netcode_server\)", fmt(t.arg(c, 1))): r.bad("disconnect_all|src", c, f"disconnect_all disconnects the ids of {fmt(t.arg(c,1))[:80]}, not of the netcode server's own client table: sessions the message layer already dropped stay open")
     if not list(t.calls(r"NetcodeServer::disconnect$", da)): r.bad("disconnect_all|missing", None, "disconnect_all does not disconnect netcode sessions")
     out.append(r)
+    import rules.shared as shared
+    out.append(shared.slots_match_limit(t, "C20.f"))
     return out
